@@ -22,6 +22,11 @@ PATTERN_EXAMPLES = {
     "[^a]": (["b", "ab", "x", "12"], ["a", "aa", ""]),
     "x": (["x", "x1", "1x", "xa"], ["a", "", "12"]),
     "^$": ([""], ["a", " ", "ab"]),
+    "-": (["a-b", "x-id", "-"], ["a_b", "ab", "", "x_id"]),
+    "_": (["a_b", "x_id", "_"], ["a-b", "ab", ""]),
+    " ": (["d e", " "], ["d_e", "ab", ""]),
+    "^x-": (["x-id", "x-"], ["x_id", "ab", ""]),
+    "[.]": (["k.v", "."], ["k_v", "ab", ""]),
 }
 
 
@@ -215,7 +220,15 @@ def instance_of(draw, schema, depth=0):
                 out[name] = draw(instance_of(sub, depth + 1))
         for name in required:
             if name not in out:
-                out[name] = draw(jv.scalars)
+                # an undeclared required key is governed by the patterns it matches / additionalProperties
+                governing = [ps for pat, ps in sorted((s.get("patternProperties") or {}).items())
+                             if isinstance(ps, dict) and _search(pat, name)]
+                if governing and draw(st.booleans()):
+                    out[name] = draw(instance_of(_merge(governing), depth + 1))
+                elif isinstance(s.get("additionalProperties"), dict) and not governing and draw(st.booleans()):
+                    out[name] = draw(instance_of(s["additionalProperties"], depth + 1))
+                else:
+                    out[name] = draw(jv.scalars)
         if s.get("dependencies") and draw(st.booleans()):
             # trigger the dependencies (all of them together, or one)
             keys = sorted(s["dependencies"])
@@ -312,6 +325,23 @@ def perturb(draw, value, depth=0):
             return [v]
         v[draw(st.sampled_from(["a", "b", "ab", "12", "x"]))] = draw(jv.scalars)
         return v
+    return v
+
+
+@st.composite
+def without_one_member(draw, value, depth=0):
+    """The value with ONE member removed somewhere (a required one, with luck): such a value must be rejected, not
+    half-built - wherever the object that misses it sits."""
+    v = value
+    if isinstance(v, dict) and v:
+        keys = sorted(v, key=str)
+        k = keys[draw(st.integers(0, len(keys) - 1))]
+        if depth < 3 and isinstance(v[k], (dict, list)) and v[k] and draw(st.booleans()):
+            return {**v, k: draw(without_one_member(v[k], depth + 1))}
+        return {kk: vv for kk, vv in v.items() if kk != k}
+    if isinstance(v, list) and v:
+        i = draw(st.integers(0, len(v) - 1))
+        return v[:i] + [draw(without_one_member(v[i], depth + 1))] + v[i + 1:]
     return v
 
 
